@@ -170,3 +170,8 @@ def run(ck):
         "slice index arithmetic of the group sub-slice is abstracted by collecting the group's tokens (no-panic covered by the correspondence run only)",
         "the first token is not a registered command (otherwise the statement is evaluated as a command call: C09)",
     ]
+
+
+def agree(m, i):
+    v = m.split("\t")[1] if "\t" in m else m
+    return all(c == v for c in i.split(" ")) and len(i.split(" ")) == 4
